@@ -18,8 +18,37 @@ VALUES_Q = [-7.0, 0.0, 3.0]
 VALUES_T = [-7.0, -1.0, 0.0, 0.5, 3.0]
 
 
+TINY = [(3.0, 4e-10, -7.0), (4e-10, -7.0, 4e-10), (-7.0, 0.1 + 0.2, 0.3), (-3e-10, 3.0, 0.5)]
+
+
 def input_vectors(names, values):
-    return [dict(zip(names, combo)) for combo in itertools.product(values, repeat=len(names))]
+    """Every combination of the menu values, plus a few vectors with finite values that are tiny but not zero
+    (and a pair that nearly cancels): "zero" in the property means exactly zero."""
+    out = [dict(zip(names, combo)) for combo in itertools.product(values, repeat=len(names))]
+    for vec in TINY:
+        out.append({n: vec[i % 3] for i, n in enumerate(names)})
+    return out
+
+
+def deep_trees():
+    """Shape-directed trees with 3-4 operators: a binary node whose operands are both composite (or unary) becomes
+    the left / right operand of another binary node - the situations in which the composition API has to add
+    parentheses on both sides."""
+    lefts = [("leaf", "A"), ("bin", "+", ("leaf", "A"), ("leaf", "B")), ("bin", "*", ("leaf", "A"), ("leaf", "B")),
+             ("un", "production", ("leaf", "A"))]
+    rights = [("leaf", "C"), ("bin", "+", ("leaf", "B"), ("leaf", "C")), ("bin", "/", ("leaf", "C"), ("leaf", "B")),
+              ("un", "consumption", ("leaf", "C"))]
+    outer = [("leaf", "C"), ("const", 2.0), ("bin", "-", ("leaf", "A"), ("leaf", "C"))]
+    out = []
+    for op1, op2 in itertools.product(F.BIN, F.BIN):
+        for l, r, z in itertools.product(lefts, rights, outer):
+            inner = ("bin", op1, l, r)
+            if F.n_ops(inner) < 2:
+                continue
+            out.append(("bin", op2, inner, z))
+            if z[0] != "const":
+                out.append(("bin", op2, z, inner))
+    return out
 
 
 def check_tree(tree, values):
@@ -116,9 +145,9 @@ def shard(args) -> Acc:
             acc.outcome(f"tree3 ops={F.n_ops(t)}")
             for clause, detail in viol:
                 acc.violation(Violation(clause, {"driver": "tree3", "tree": t, "shown": F.show(t), "values": values[:3]}, detail))
-    elif kind == "tree":
+    elif kind in ("tree", "deep"):
         n = lo[0]
-        progs = F.trees(n)[lo[1]:hi]
+        progs = (F.trees(n) if kind == "tree" else deep_trees())[lo[1]:hi]
         for t in progs:
             viol, n_cmp, n_in = check_tree(t, values)
             acc.evaluations += n_in
@@ -164,6 +193,8 @@ def run(tier: str, seed: int, workers: int):
         total = len(F.trees(n))
         for lo in range(0, total, step):
             shards.append(("tree", tier, (n, lo), lo + step))
+    for lo in range(0, len(deep_trees()), step):
+        shards.append(("deep", tier, (0, lo), lo + step))
     for n in ([1] if tier == "quick" else [1, 2]):
         total = len(F.trees(n, leaves=["A", "B"]))
         for lo in range(0, total, step):
@@ -180,10 +211,12 @@ def run(tier: str, seed: int, workers: int):
     meta = {
         "rule": "programs: every expression tree with up to 2 (quick) / 3 (thorough) operator nodes over leaves A,B,C (repeats allowed), "
         "binary + - * / max min, unary consumption/production, a constant as right operand, built through the Python operator API "
-        "in the association the tree dictates; every formula string with up to 3 (quick) / 4 (thorough) operators over #1 #2 #3 with "
+        "in the association the tree dictates; plus shape-directed trees with 3-4 operators in which a binary node with composite or "
+        "unary operands is itself the left / right operand of another binary node; every formula string with up to 3 (quick) / 4 (thorough) operators over #1 #2 #3 with "
         "flat, one and two (nested or disjoint) parenthesised ranges, redundant parentheses and no-whitespace variants; the same trees with "
         "1 (quick) / 2 (thorough) operators over 3-phase engines (FormulaEngine3Phase leaves, per-phase reference).  Inputs: one "
-        "timestamp per combination of leaf values from {-7,0,3} (quick) / {-7,-1,0,0.5,3}.  A program is one trace; an evaluation "
+        "timestamp per combination of leaf values from {-7,0,3} (quick) / {-7,-1,0,0.5,3}, plus 4 vectors with tiny non-zero and "
+        "nearly cancelling values.  A program is one trace; an evaluation "
         "is one timestamp; non-trivial = at least 2 operators and 2 distinct leaves",
         "assumptions": [
             "lock-step delivery of the inputs (the schedule dimension is C06's subject)",
